@@ -447,10 +447,13 @@ class Interp:
         if isinstance(e, ast.Lambda):
             return FuncRef('<lambda>')
         if isinstance(e, ast.Dict):
+            ks, vs = [], []
             for k, v in zip(e.keys, e.values):
                 if k is not None:
-                    self.expr(k, env)
-                self.expr(v, env)
+                    ks.append(self.expr(k, env))
+                vs.append(self.expr(v, env))
+            if hasattr(D, 'dict_literal'):
+                return D.dict_literal(self, ks, vs, e)
             return D.top()
         if isinstance(e, ast.Set):
             for x in e.elts:
